@@ -10,13 +10,25 @@
 //    recurrence through restarts = 4 u ||A||_F (n + iters*space + 10);
 //  * "lowest":  Kahan's theorem — for V (n x k) of full rank and Theta=diag(lambda) there are k eigenvalues of the
 //    symmetric A matched one-to-one to the lambda_i with |lambda_i - mu_j(i)| <= sqrt(2) ||A V - V Theta||_2 / sigma_min(V).
-//    If the returned values are the lowest ones, the sorted lists differ by at most that bound (sorting is
-//    1-Lipschitz in the sup norm) — so a larger distance means a converged pair belongs to a higher eigenvalue
-//    while a lower one is missing.  The bound is evaluated with the residual matrix I compute myself.
+//    The convergence criterion permits ||A V - V Theta||_F < sqrt(k) tol, so if the returned values are the lowest ones
+//    the sorted lists differ by at most sqrt(2k) tol / sigma_min (sorting is 1-Lipschitz in the sup norm).  A larger
+//    distance means: a converged pair belongs to a higher eigenvalue while a lower one is missing, by more than the
+//    accuracy the user selected.  (Deviations inside that band — neighbouring members of a cluster — are counted, not failed.)
 //  * orthogonality 1e-8 = sqrt(eps): an orthogonality defect eta perturbs the Rayleigh quotients by O(eta^2 |A|), so
-//    eta <= sqrt(eps) is "orthogonal to working accuracy of the eigenvalues" (a correct twice-repeated Gram-Schmidt reaches
-//    ~1e-14; the solver's own dependency threshold lets nearly dependent directions through, seen up to 2e-10);
-//    normalisation 1e-12 (explicit normalize at the end).
+//    eta <= sqrt(eps) is "orthogonal to working accuracy of the eigenvalues"; normalisation 1e-12 (explicit normalize).
+//
+// Failure keys = root causes.  A failing run is repeated with a recording MatrixFreeOperator (diagnosis): the recorded
+// blocks give the basis size over time, the orthonormality of vectors that coexist in the basis and the Ritz values on
+// everything the solver ever saw.  Confirmed findings (see replays/C09):
+//   Davidson/gramschmidt-dependency-undetected  gramschmidt() re-normalises before testing -> (nearly) dependent directions
+//                                               enter the basis as normalised noise -> garbage "Success"/NaN exceptions
+//   Davidson/olsen-nan-exact-diagonal           olsen(): 0/0 when a Ritz value equals a diagonal element
+//   Davidson/hidden-root-reducible              Success with a root hidden in another block (inherent, DESIGN 5 #20)
+//   Davidson/premature-success-unseen-root      same mechanism on irreducible matrices: residuals pass before the lowest
+//                                               eigenvector is represented in the (restarted) search space
+// When these are listed as known, the GENERATOR excludes what can be excluded by construction (basis never outgrows n,
+// irreducible matrices with distinct diagonal, dense coupling for OLSEN) and stamps the case with "tolerate": [...] for
+// the classes that can only be recognised after the run; a replay file is therefore always evaluated in full.
 #include "vv_common.h"
 
 #include <fcntl.h>
@@ -144,6 +156,7 @@ struct Run {
   bool died = false;
   bool threw = false;
   std::string what;
+  std::string err;  // stderr tail of a died child
   Eigen::ComputationInfo info = Eigen::NoConvergence;
   Vec lambda;
   Mat vecs;
@@ -177,6 +190,7 @@ static Index max_cols(const json &opt, Index k, Index n) {
 struct Blob {
   bool died = false;
   std::string note;
+  std::string err;  // tail of the child's stderr
   std::vector<double> d;
   std::string s;
 };
@@ -200,6 +214,15 @@ static bool read_all(int fd, void *p, size_t n) {
   }
   return true;
 }
+static int g_child_fd = -1;
+static void child_emit(const std::vector<double> &d, const std::string &str) {
+  size_t hdr[2] = {d.size(), str.size()};
+  write_all(g_child_fd, hdr, sizeof hdr);
+  write_all(g_child_fd, d.data(), d.size() * sizeof(double));
+  write_all(g_child_fd, str.data(), str.size());
+  close(g_child_fd);
+  _exit(0);
+}
 static Blob forked(const std::function<void(std::vector<double> &, std::string &)> &fn) {
   Blob B;
   if (getenv("VV_C09_INPROC")) {
@@ -212,6 +235,11 @@ static Blob forked(const std::function<void(std::vector<double> &, std::string &
     B.note = "pipe failed";
     return B;
   }
+  // the child's stderr goes to an unlinked scratch file (the solver dumps whole matrices there); its tail tells which
+  // assertion killed the child
+  char tmpl[] = "/verif/build/work/c09-stderr-XXXXXX";
+  int efd = mkstemp(tmpl);
+  if (efd >= 0) unlink(tmpl);
   fflush(nullptr);
   pid_t pid = fork();
   if (pid == 0) {
@@ -221,20 +249,18 @@ static Blob forked(const std::function<void(std::vector<double> &, std::string &
     st().crash.clear();
     if (!getenv("VV_C09_DEBUG")) {
       int dn = open("/dev/null", O_WRONLY);
-      if (dn >= 0) {
+      if (dn >= 0) dup2(dn, 1);
+      if (efd >= 0)
+        dup2(efd, 2);
+      else if (dn >= 0)
         dup2(dn, 2);
-        dup2(dn, 1);
-      }
     }
+    g_child_fd = fd[1];
+    arm_cpu_watchdog(true);  // interval timers are not inherited over fork(): the child gets its own CPU budget (exit 87)
     std::vector<double> d;
     std::string str;
     fn(d, str);
-    size_t hdr[2] = {d.size(), str.size()};
-    write_all(fd[1], hdr, sizeof hdr);
-    write_all(fd[1], d.data(), d.size() * sizeof(double));
-    write_all(fd[1], str.data(), str.size());
-    close(fd[1]);
-    _exit(0);
+    child_emit(d, str);
   }
   close(fd[1]);
   size_t hdr[2] = {0, 0};
@@ -247,6 +273,14 @@ static Blob forked(const std::function<void(std::vector<double> &, std::string &
   close(fd[0]);
   int status = 0;
   if (pid > 0) waitpid(pid, &status, 0);
+  if (efd >= 0) {
+    off_t sz = lseek(efd, 0, SEEK_END);
+    off_t from = sz > 4096 ? sz - 4096 : 0;
+    lseek(efd, from, SEEK_SET);
+    B.err.resize(size_t(sz - from));
+    if (!B.err.empty() && !read_all(efd, &B.err[0], B.err.size())) B.err.clear();
+    close(efd);
+  }
   if (!ok || !WIFEXITED(status) || WEXITSTATUS(status) != 0) {
     B.died = true;
     B.note = WIFSIGNALED(status) ? fmt("killed by signal %d", WTERMSIG(status)) : fmt("exit status %d", WEXITSTATUS(status));
@@ -318,6 +352,7 @@ static Run run_solver(const Mat &A, Index neigen, const json &opt, bool ham) {
   if (B.died || B.d.size() < 7) {
     R.died = true;
     R.what = B.note;
+    R.err = B.err;
     return R;
   }
   R.threw = B.d[0] != 0;
@@ -343,67 +378,85 @@ struct Diag {
   double ortho_loss = 0;  // max |G^T G - I| over the vectors that coexist in V
   Vec ritz_seen;          // SYMM only
 };
+static std::function<void()> g_diag_on_abort;
+static void diag_abort_handler(int) {
+  if (g_diag_on_abort) g_diag_on_abort();
+  _exit(134);
+}
 static Diag diagnose(const Mat &A, Index k, const json &opt, bool ham, const Vec &lambda_main) {
   Index n = A.rows();
   Blob B = forked([&](std::vector<double> &d, std::string &) {
     std::vector<Mat> rec;
-    Run C = run_solver_inproc(A, k, opt, ham, &rec);
-    std::vector<Mat> vb;  // blocks of basis vectors (HAM: every second product is A*(A V))
-    for (size_t i = 0; i < rec.size(); ++i)
-      if (!ham || i % 2 == 0) vb.push_back(rec[i]);
-    Index space = eff_space(opt.at("space"), k, n);
-    bool exceeded = false, restarted = false;
-    double loss = 0;
-    Index cols = 0;
-    std::vector<Mat> group;
-    auto check_group = [&]() {
-      Index tot = 0;
-      for (auto &g : group) tot += g.cols();
-      if (tot == 0) return;
-      Mat G(n, tot);
-      Index c0 = 0;
-      for (auto &g : group) {
-        G.middleCols(c0, g.cols()) = g;
-        c0 += g.cols();
-      }
-      Mat E = G.transpose() * G - Mat::Identity(tot, tot);
-      double m = E.cwiseAbs().maxCoeff();
-      if (!(m <= loss)) loss = std::isfinite(m) ? m : 1e300;
-    };
-    for (size_t t = 0; t < vb.size(); ++t) {
-      cols += vb[t].cols();
-      group.push_back(vb[t]);
-      if (cols > n) exceeded = true;
-      if (t > 0 && cols > space) {  // restart: V = [Ritz vectors | this block]
-        restarted = true;
-        check_group();
-        group.clear();
+    Vec lam_rerun;
+    auto analyse = [&]() {
+      std::vector<Mat> vb;  // blocks of basis vectors (HAM: every second product is A*(A V))
+      for (size_t i = 0; i < rec.size(); ++i)
+        if (!ham || i % 2 == 0) vb.push_back(rec[i]);
+      Index space = eff_space(opt.at("space"), k, n);
+      bool exceeded = false, restarted = false;
+      double loss = 0;
+      Index cols = 0;
+      std::vector<Mat> group;
+      auto check_group = [&]() {
+        Index tot = 0;
+        for (auto &g : group) tot += g.cols();
+        if (tot == 0) return;
+        Mat G(n, tot);
+        Index c0 = 0;
+        for (auto &g : group) {
+          G.middleCols(c0, g.cols()) = g;
+          c0 += g.cols();
+        }
+        Mat E = G.transpose() * G - Mat::Identity(tot, tot);
+        double m = E.cwiseAbs().maxCoeff();
+        if (!G.allFinite()) m = 1e300;
+        if (!(m <= loss)) loss = std::isfinite(m) ? m : 1e300;
+      };
+      for (size_t t = 0; t < vb.size(); ++t) {
+        cols += vb[t].cols();
         group.push_back(vb[t]);
-        cols = 2 * k + vb[t].cols();
+        if (cols > n) exceeded = true;
+        if (t > 0 && cols > space) {  // restart: V = [Ritz vectors | this block]
+          restarted = true;
+          check_group();
+          group.clear();
+          group.push_back(vb[t]);
+          cols = 2 * k + vb[t].cols();
+        }
       }
-    }
-    check_group();
-    std::vector<double> ritz;
-    if (!ham && !vb.empty() && loss < 1e200) {
-      Index tot = 0;
-      for (auto &g : vb) tot += g.cols();
-      Mat W(n, tot);
-      Index c0 = 0;
-      for (auto &g : vb) {
-        W.middleCols(c0, g.cols()) = g;
-        c0 += g.cols();
+      check_group();
+      std::vector<double> ritz;
+      if (!ham && !vb.empty() && loss < 1e200) {
+        Index tot = 0;
+        for (auto &g : vb) tot += g.cols();
+        Mat W(n, tot);
+        Index c0 = 0;
+        for (auto &g : vb) {
+          W.middleCols(c0, g.cols()) = g;
+          c0 += g.cols();
+        }
+        Eigen::ColPivHouseholderQR<Mat> qr(W);
+        qr.setThreshold(1e-10);
+        Index r = qr.rank();
+        Mat Q = qr.householderQ() * Mat::Identity(n, r);
+        Eigen::SelfAdjointEigenSolver<Mat> es(Q.transpose() * A * Q);
+        for (Index i = 0; i < std::min(k, r); ++i) ritz.push_back(es.eigenvalues()(i));
       }
-      Eigen::ColPivHouseholderQR<Mat> qr(W);
-      qr.setThreshold(1e-10);
-      Index r = qr.rank();
-      Mat Q = qr.householderQ() * Mat::Identity(n, r);
-      Eigen::SelfAdjointEigenSolver<Mat> es(Q.transpose() * A * Q);
-      for (Index i = 0; i < std::min(k, r); ++i) ritz.push_back(es.eigenvalues()(i));
-    }
-    d = {exceeded ? 1.0 : 0.0, loss, restarted ? 1.0 : 0.0, double(ritz.size())};
-    d.insert(d.end(), ritz.begin(), ritz.end());
-    d.push_back(double(C.lambda.size()));
-    d.insert(d.end(), C.lambda.data(), C.lambda.data() + C.lambda.size());
+      d = {exceeded ? 1.0 : 0.0, loss, restarted ? 1.0 : 0.0, double(ritz.size())};
+      d.insert(d.end(), ritz.begin(), ritz.end());
+      d.push_back(double(lam_rerun.size()));
+      d.insert(d.end(), lam_rerun.data(), lam_rerun.data() + lam_rerun.size());
+    };
+    // the rerun may abort like the original run did: the blocks recorded so far are analysed from the SIGABRT handler
+    g_diag_on_abort = [&]() {
+      analyse();
+      child_emit(d, "aborted");
+    };
+    if (!getenv("VV_C09_INPROC")) signal(SIGABRT, diag_abort_handler);
+    Run C = run_solver_inproc(A, k, opt, ham, &rec);
+    lam_rerun = C.lambda;
+    g_diag_on_abort = nullptr;
+    analyse();
   });
   Diag D;
   if (B.died || B.d.size() < 5) return D;
@@ -439,6 +492,16 @@ static bool start_uncoupled(const Mat &A, Index k, bool ham) {
       if (a != b && A(a, b) != 0.0) coupled = true;
     if (!coupled) return true;
   }
+  // weak coupling has the same effect: the Ritz values of the guess block equal a diagonal element to working precision
+  // (second-order shift c^2/gap below one ulp); 64 ulp band because the solver's small eigenproblem rounds differently
+  Index m = Index(st_.size());
+  Mat T(m, m);
+  for (Index i = 0; i < m; ++i)
+    for (Index j = 0; j < m; ++j) T(i, j) = 0.5 * (A(st_[size_t(i)], st_[size_t(j)]) + A(st_[size_t(j)], st_[size_t(i)]));
+  Eigen::SelfAdjointEigenSolver<Mat> es(T);
+  for (Index i = 0; i < m; ++i)
+    for (Index j = 0; j < m; ++j)
+      if (std::fabs(es.eigenvalues()(i) - T(j, j)) <= 64 * 2 * U * std::fabs(T(j, j))) return true;
   return false;
 }
 
@@ -453,7 +516,7 @@ struct Ctx {
 static std::string attribute(const Ctx &x, const std::string &symptom, std::string &why) {
   const json &opt = x.c.at("opt");
   if ((x.R.threw || x.R.died) && opt.at("corr") == "OLSEN" && start_uncoupled(x.A, x.k, x.ham)) {
-    why = " [OLSEN correction and an initial-guess coordinate that is uncoupled from the other guess coordinates: Ritz value == diagonal element]";
+    why = " [OLSEN correction and an initial-guess coordinate that is uncoupled (or coupled below rounding level) from the other guess coordinates: Ritz value == diagonal element]";
     return K_OLSEN;
   }
   Diag D = diagnose(x.A, x.k, opt, x.ham, x.R.lambda);
@@ -764,6 +827,7 @@ static void apply_known(json &c, bool keep_structure) {
       if (!c.contains("rank1")) c["rank1"] = json::array();
       c["rank1"].push_back({1.0 / 256, u});
       changed = true;
+      if (start_uncoupled(build_symm(c), k, false)) opt["corr"] = "DPR";  // couplings too weak (tiny offscale): leave OLSEN out
     }
     if (changed) c["repaired"] = true;
   }
@@ -951,7 +1015,11 @@ static Result run_symm(const json &c) {
   Run R = run_solver(A, k, c.at("opt"), false);
   Ctx X{c, A, k, false, R};
   if (R.died) {
-    fail_attr(r, X, "Davidson/abort", "solver process died (" + R.what + ")");
+    if (R.what.find("exit status 87") != std::string::npos) {
+      r.fail("no-termination-within-cpu-budget", "solver did not return within the CPU budget");
+      return r;
+    }
+    fail_attr(r, X, "Davidson/abort", "solver process died (" + R.what + ") stderr: ..." + R.err.substr(R.err.size() > 300 ? R.err.size() - 300 : 0));
     return r;
   }
   if (R.threw) {
@@ -1066,6 +1134,9 @@ static json gen_ham() {
     if (start_uncoupled(H, k, true)) {
       c["denseA"] = 1.0 / 64;
       c["repaired"] = true;
+      build_ham(c, Ab, Bb);
+      H << Ab, Bb, -Bb, -Ab;
+      if (start_uncoupled(H, k, true)) c["opt"]["corr"] = "DPR";
     }
   }
   json tl = json::array();
@@ -1103,7 +1174,25 @@ static Result run_ham(const json &c) {
   Run R = run_solver(H, k, opt, true);
   Ctx X{c, H, k, true, R};
   if (R.died) {
-    fail_attr(r, X, "Davidson/abort", "HAM: solver process died (" + R.what + ")");
+    bool qz_assert = R.err.find("GeneralizedEigenSolver") != std::string::npos && R.err.find("EigenSolver is not initialized") != std::string::npos;
+    if (R.what.find("exit status 87") != std::string::npos) {
+      r.fail("no-termination-within-cpu-budget", "HAM: solver did not return within the CPU budget");
+      return r;
+    }
+    std::string why;
+    std::string key = attribute(X, "Davidson/abort", why);
+    if (key == "Davidson/abort" && qz_assert) {
+      // Eigen's GeneralizedEigenSolver::info() asserts when compute() failed (RealQZ did not converge on a FINITE, orthonormally
+      // projected pencil): with NDEBUG the solver throws its documented "Small generalized eigenvalue problem failed." here.
+      // Nothing is returned, no status is claimed -> same class as a throw (reported as an observation, not as a violation).
+      r.cls("throw(assert build aborts): small generalized eigenproblem failed (RealQZ)");
+      return r;
+    }
+    if (tolerated(c, key)) {
+      r.cls("excluded-known:" + key);
+      return r;
+    }
+    r.fail(key, "HAM: solver process died (" + R.what + ")" + why + " stderr: ..." + R.err.substr(R.err.size() > 300 ? R.err.size() - 300 : 0));
     return r;
   }
   if (R.threw) {
